@@ -208,7 +208,10 @@ def tolerance_job(args):
     n1, n2 = 4, 2
     L1 = float(np.linalg.norm(np.array(J) - np.array(A)))
     msl = L1 / n1
-    bound = {'near': 3e-4, 'far': 3e-3}[case]
+    chain = case.startswith('chain-')
+    Cpt = (3.1, 0.2, 4.4)
+    n3 = 2
+    bound = {'near': 3e-4, 'far': 3e-3}[case.replace('chain-', '')]
 
     def fn():
         c = symx.ctx()
@@ -218,7 +221,11 @@ def tolerance_job(args):
         with symx.object_arrays():
             w1 = M.Wire(n1, *A, *J, 0.002)
             w2 = M.Wire(n2, J[0] + d[0], J[1] + d[1], J[2] + d[2], *B, 0.002)
-            m = M.Mininec(29.98, [w1, w2])
+            geo = [w1, w2]
+            if chain:
+                # a third wire that starts EXACTLY where the second ends: it must be joined whether or not the first joint is a fuzzy one
+                geo.append(M.Wire(n3, *B, *Cpt, 0.002))
+            m = M.Mininec(29.98, geo)
         return dict(m=m, d=d)
 
     with symx.shadow.trace_functions(sh):
@@ -234,9 +241,46 @@ def tolerance_job(args):
         o = p.value
         d = o['d']
         n = len(o['m'].pulses)
-        joined = (n == (n1 - 1) + (n2 - 1) + 1)
-        if not joined and n != (n1 - 1) + (n2 - 1):
-            raise symx.HarnessError('tolerance harness: unexpected pulse count %d' % n)
+        base = (n1 - 1) + (n2 - 1) + ((n3 - 1) + 1 if chain else 0)
+        joined = (n == base + 1)
+        if not joined and n != base:
+            # neither of the two counts the topology allows: the exact joint of the chain was lost (or an extra one made)
+            pts = [A, J, J, B] + ([B, Cpt] if chain else [])
+            v = replay_count(mm, 3 if chain else 2, (n1, n2, n3) if chain else (n1, n2), False, [A, J, tuple(J[i] + 1e-9 for i in range(3)), B] + ([B, Cpt] if chain else []))
+            on = 'tolerance-%s/path%d/pulse count is one of the two the topology allows' % (case, pi)
+            if v:
+                res['violations'].append(('C12:tolerance:chain', v[1], v[2]))
+                res['obls'].append((on, 'violation', v[1]))
+            else:
+                res['obls'].append((on, 'spurious', dict(pulses=n, allowed=[base, base + 1])))
+            continue
+        if chain:
+            # the tolerance relation itself is decided on the two-wire frame; here the claim is the COUNT on every path: one
+            # displacement of this path (solver model) says whether the first joint is a joint, the exact second joint always is
+            s_ = z3.Solver()
+            s_.set('timeout', qt)
+            s_.add(p.pc + p.axioms)
+            on = 'tolerance-%s/path%d/pulse count follows from which joints exist' % (case, pi)
+            if str(s_.check()) != 'sat':
+                res['obls'].append((on, 'inconclusive', None))
+                continue
+            dc = [float(core.model_value(s_.model(), x)) for x in d]
+            dist = float(np.linalg.norm(dc))
+            if abs(dist - 1e-3 * msl) < 1e-9 * msl:
+                res['obls'].append((on, 'inconclusive', 'model on the tolerance boundary'))
+                continue
+            want = base + (1 if dist <= 1e-3 * msl else 0)
+            if n == want:
+                res['obls'].append((on, 'discharged', None))
+                continue
+            pts = [A, J, tuple(J[i] + dc[i] for i in range(3)), B, B, Cpt]
+            v = replay_count(mm, 3, (n1, n2, n3), False, pts)
+            if v:
+                res['violations'].append(('C12:tolerance:chain', v[1], v[2]))
+                res['obls'].append((on, 'violation', v[1]))
+            else:
+                res['obls'].append((on, 'spurious', dict(delta=dc, pulses=n, expected=want)))
+            continue
         d2 = d[0] * d[0] + d[1] * d[1] + d[2] * d[2]
         # a margin of 1e-9 relative keeps float rounding of the norm out of the claim
         if joined:
@@ -258,8 +302,8 @@ def tolerance_job(args):
             res['obls'].append((on, 'inconclusive', None))
         else:
             dc = [float(core.model_value(s.model(), x)) for x in d]
-            pts = [A, J, tuple(J[i] + dc[i] for i in range(3)), B]
-            v = replay_count(mm, 2, (n1, n2), False, pts)
+            pts = [A, J, tuple(J[i] + dc[i] for i in range(3)), B] + ([B, Cpt] if chain else [])
+            v = replay_count(mm, 3 if chain else 2, (n1, n2, n3) if chain else (n1, n2), False, pts)
             if v:
                 v = ('C12:tolerance', v[1], v[2])
                 res['violations'].append(v)
@@ -290,7 +334,7 @@ def main(args):
     if ck.tier == 'thorough':
         for fixed in range(16):
             jobs.append((4, (1, 2, 1, 1), False, qt, fixed))
-    tjobs = [('near', qt), ('far', qt)]
+    tjobs = [('near', qt), ('far', qt), ('chain-near', qt), ('chain-far', qt)]
     with mp.Pool(min(16, os.cpu_count() or 1)) as pool:
         r1 = pool.map_async(topo_job, jobs, chunksize=1)
         r2 = pool.map_async(tolerance_job, tjobs, chunksize=1)
